@@ -1455,10 +1455,12 @@ deep_inventory (object_t * ob, int take_top)
 
 static int alist_cmp (svalue_t * p1, svalue_t * p2) {
 
+  /* three-way compare without subtraction: the difference of two 64-bit values (integers, the bits of a
+   * float, a shared-string pointer) does not fit the int result - values 2^32 apart compared equal */
   if (p1->u.number != p2->u.number)
-    return (int)(p1->u.number - p2->u.number);
+    return p1->u.number < p2->u.number ? -1 : 1;
   if (p1->type != p2->type)
-    return (int)(p1->type - p2->type);
+    return p1->type < p2->type ? -1 : 1;
   return 0;
 }
 
